@@ -243,6 +243,9 @@ class World:
             return mshw.shallowwater1d()
         if k == "euler2d":
             return meuler.euler2d()
+        if k == "nozzle":
+            slope = unhex(m.get("slope", "0x1.3333333333333p-2"))
+            return meuler.nozzle(sectionlaw=lambda x: 1.0 + slope * x)
         raise HarnessError("model kind " + k)
 
     def _num(self):
@@ -258,8 +261,14 @@ class World:
         raise HarnessError("num " + n)
 
     def make_disc(self, rec):
-        """A fresh discretisation of this world (own model object, shared mesh)."""
-        model = self._model()
+        """A fresh discretisation of this world (shared mesh; own model object, except
+        that the world's own discretisations may share one model object like callers do)."""
+        if rec is not None and self.spec.get("share_model"):
+            if getattr(self, "_shared_model", None) is None:
+                self._shared_model = self._model()
+            model = self._shared_model
+        else:
+            model = self._model()
         if self.mode == "stub":
             inner = SimDisc(model, self.mesh, self.spec["stub"])
         elif self.spec["model"]["kind"] == "euler2d":
@@ -269,9 +278,29 @@ class World:
             inner = fdisc.fvm2d(model, self.mesh, num=num, numflux=self.spec["model"].get("flux"),
                                 bclist={tag: bcper for tag in self.mesh.list_of_bctags()})
         else:
+            bcL, bcR = self._bcs()
             inner = fdisc.fvm1d(model, self.mesh, self._num(),
-                                numflux=self.spec["model"].get("flux"))
+                                numflux=self.spec["model"].get("flux"), bcL=bcL, bcR=bcR)
         return DiscProxy(inner, rec, self.ticks)
+
+    def _bcs(self):
+        bc = self.spec.get("bc", "per")
+        kind = self.spec["model"]["kind"]
+        if bc == "per":
+            return {"type": "per"}, {"type": "per"}
+        if bc == "sym":
+            return {"type": "sym"}, {"type": "sym"}
+        if bc == "inout":
+            return {"type": "insub", "ptot": 1.1, "rttot": 1.0}, {"type": "outsub", "p": 1.0}
+        if bc == "dirichlet":
+            if kind in ("convection", "burgers"):
+                v = unhex(self.spec["fields"][0]["base"])
+                return {"type": "dirichlet", "prim": [v]}, {"type": "dirichlet", "prim": [v]}
+            u0 = unhex(self.spec["fields"][0].get("u0", "0x0p+0"))
+            if kind == "shallowwater":
+                return {"type": "dirichlet", "prim": [1.0, u0]}, {"type": "dirichlet", "prim": [1.0, u0]}
+            return {"type": "dirichlet", "prim": [1.0, u0, 1.0]}, {"type": "dirichlet", "prim": [1.0, u0, 1.0]}
+        raise HarnessError("bc " + bc)
 
     def make_field(self, fs, disc):
         if self.spec["model"]["kind"] == "euler2d":
@@ -294,7 +323,7 @@ class World:
         u0 = unhex(fs.get("u0", "0x0p+0"))
         if kind in ("convection", "burgers"):
             data = [q]
-        elif kind == "euler":
+        elif kind in ("euler", "nozzle"):
             rho = q
             p = base + 0.5 * amp * s
             data = model.prim2cons([rho, u0 + 0 * q, p])
@@ -345,4 +374,5 @@ MON_DATA = {
     "euler": ["density", "pressure", "mach", "velocity", "massflow"],
     "shallowwater": ["height", "velocity", "massflow"],
     "euler2d": ["density", "pressure", "mach", "velocity_x", "velocity_y"],
+    "nozzle": ["density", "pressure", "mach", "velocity", "massflow"],
 }
